@@ -363,6 +363,21 @@ func postC04(res *RunResult) {
 			}
 		}
 	}
+	{
+		var fs [][]byte
+		var labels []string
+		for _, c := range res.Stats.cases {
+			if dc, ok := parseDecCase(c); ok && accepted[string(dc.data)] && len(dc.data) < 5000 && len(fs) < 30 {
+				accepted[string(dc.data)] = false
+				fs = append(fs, dc.data)
+				labels = append(labels, c)
+			}
+		}
+		for i := range fs {
+			accepted[string(fs[i])] = true
+		}
+		integrityReaderKinds(res, fs, labels)
+	}
 	for i, c := range res.Stats.cases {
 		out := res.Stats.impl[i]
 		switch res.Stats.setOf[i] {
